@@ -1096,6 +1096,7 @@ def stream_probes(ctx):
     for def_src, callee, tail, prev, cur in [
             ('class C:\n    def m(*args, k=1): pass\n', 'C().m', '', [], {'t': 'empty'}),
             ('class C:\n    def __init__(*args, **kw): pass\n', 'C', '', [], {'t': 'empty'}),
+            ('class C:\n    def m(*args): pass\n', 'C().m', '', [], {'t': 'empty'}),
             ('class C:\n    @classmethod\n    def m(*args, k=1): pass\n', 'C.m', '', [], {'t': 'empty'}),
             ('class C:\n    def m(*args, k=1): pass\n', 'C().m', '1, k=', [('pos', '1', None)], {'t': 'kwOpen', 's': 'k'}),
             ('class C:\n    def m(*args, k=1): pass\n', 'C().m', '1, 2', [('pos', '1', None)], {'t': 'expr'}),
